@@ -3,6 +3,3 @@ package main
 import "path/filepath"
 
 func matchPath(pat, name string) (bool, error) { return filepath.Match(pat, name) }
-
-func runMonitor(prop string, seed uint64, scale int, outdir string) int { return 0 }
-func runReplay(prop string, file string) int                            { return 0 }
